@@ -135,6 +135,132 @@ func RunC11(run *vk.Run) {
 			have[w.Object] = true
 		}
 	}
+	// histories with a storage fault: a rotation in which the k-th interface call fails (every call
+	// position, including the Close that commits an object), followed by healthy rotations, with a
+	// fresh authority object per command and with one long-lived authority object; every prefix of the
+	// writes that were actually committed must again be consistent
+	faultHists, faultPrefixes := 0, 0
+	{
+		type job struct {
+			combo Combo
+			long  bool
+			k     int
+			sov   int // serial override of the faulty rotation (0 = none): its object name then differs from the retries'
+		}
+		var jobs []job
+		for _, combo := range combos {
+			a, err := NewAuthority(combo)
+			if err != nil {
+				run.Infra(err)
+				return
+			}
+			if err := a.Exec(&Tap{}, "bootstrap", "--timestamp", ts(T0)); err != nil {
+				run.Infra(err)
+				return
+			}
+			snap := a
+			for _, sov := range []int{0, 7} {
+				// the call sequence of a fault-free rotation with this serial flag (on a copy)
+				c, err := snap.Clone()
+				if err != nil {
+					run.Infra(err)
+					return
+				}
+				t := &Tap{}
+				pargs := []string{"rotate", "--timestamp", ts(Tn(1))}
+				if sov != 0 {
+					pargs = append(pargs, "--rotated_key_serial_override", fmt.Sprint(sov))
+				}
+				if err := c.Exec(t, pargs...); err != nil {
+					run.Infra(fmt.Errorf("fault-free rotation failed: %v", err))
+					return
+				}
+				c.Close()
+				for k := 1; k <= len(t.Calls); k++ {
+					if run.IsQuick() && !strings.HasPrefix(t.Calls[k-1], "Storage.") && !strings.HasPrefix(t.Calls[k-1], "CA.Finalize") && k%3 != int(run.Seed)%3 {
+						continue // quick: every storage call, a third of the others
+					}
+					if sov == 0 {
+						jobs = append(jobs, job{combo, false, k, 0}, job{combo, true, k, 0})
+					} else {
+						jobs = append(jobs, job{combo, true, k, sov})
+						if !run.IsQuick() {
+							jobs = append(jobs, job{combo, false, k, sov})
+						}
+					}
+				}
+			}
+			a.Close()
+		}
+		parallel(len(jobs), func(i int) {
+			j := jobs[i]
+			a, err := NewAuthority(j.combo)
+			if err != nil {
+				run.Infra(err)
+				return
+			}
+			defer a.Close()
+			a.LongLived = j.long
+			var writes []Write
+			var cmds []string
+			exec := func(t *Tap, args ...string) error {
+				err := a.Exec(t, args...)
+				writes = append(writes, t.Writes...)
+				cmds = append(cmds, fmt.Sprintf("%s -> %v", strings.Join(args[:1], " "), err))
+				return err
+			}
+			if err := exec(&Tap{}, "bootstrap", "--timestamp", ts(T0)); err != nil {
+				run.Infra(err)
+				return
+			}
+			ft := &Tap{FailAt: j.k}
+			fargs := []string{"rotate", "--timestamp", ts(Tn(1))}
+			if j.sov != 0 {
+				fargs = append(fargs, "--rotated_key_serial_override", fmt.Sprint(j.sov))
+			}
+			exec(ft, fargs...)
+			failed := "?"
+			if j.k <= len(ft.Calls) {
+				failed = ft.Calls[j.k-1]
+			}
+			for r := 2; r <= 3; r++ {
+				hargs := []string{"rotate", "--timestamp", ts(Tn(r))}
+				if j.sov != 0 {
+					// explicit serials: the command then does not need the current primary's certificate to
+					// compute the next serial, so the retry goes ahead on a long-lived authority object too
+					hargs = append(hargs, "--rotated_key_serial_override", fmt.Sprint(j.sov+r-1))
+				}
+				exec(&Tap{}, hargs...)
+			}
+			objs := map[string][]byte{}
+			have := map[string]bool{}
+			mu.Lock()
+			faultHists++
+			mu.Unlock()
+			for k, w := range writes {
+				if op, _ := classifyObject(w.Object, w.Data); op == "WriteMan" {
+					for _, obj := range manifestObjects(w.Data) {
+						if !have[obj] {
+							run.Violation("manifest-ahead:fault", fmt.Sprintf("manifest written while it references %q, which is not stored (rotation with call %d [%s] failing, serial override %d, then healthy rotations; long-lived authority object: %v; %v)", obj, j.k, failed, j.sov, j.long, j.combo),
+								map[string]any{"combo": j.combo.String(), "fail_at": j.k, "failed_call": failed, "long_lived": j.long, "commands": cmds})
+						}
+					}
+				}
+				have[w.Object] = true
+				objs[bucket+"/"+w.Object] = w.Data
+				if err := StoreConsistent(objs, Tn(3)); err != nil {
+					run.Violation("prefix-inconsistent:fault:"+classOf(w.Object), fmt.Sprintf("after the first %d committed object writes (last: %s) of a history whose first rotation had call %d [%s] failing (long-lived authority object: %v; %v) the store is inconsistent: %v", k+1, w.Object, j.k, failed, j.long, j.combo, err),
+						map[string]any{"combo": j.combo.String(), "fail_at": j.k, "failed_call": failed, "long_lived": j.long, "commands": cmds, "prefix": k + 1})
+				}
+				mu.Lock()
+				faultPrefixes++
+				mu.Unlock()
+			}
+			run.Case(fmt.Sprintf("fault:%v:%v:%d:%d", j.combo, j.long, j.k, j.sov), true)
+		})
+	}
+	run.Extra["fault_histories"] = faultHists
+	run.Extra["fault_history_prefixes_checked"] = faultPrefixes
 	var os []string
 	for k, v := range orders {
 		os = append(os, fmt.Sprintf("%s (x%d)", k, v))
